@@ -3,13 +3,21 @@
    W workers, hashing thread, epilogue; atomicity = hook points).  A frame is identified by its
    number because encoding a block is a function of the block only (C10) and the frame number is
    fixed by the feeder.
-   Proved here: complete exploration of all schedules of named finite instances (Proofs/ParSmall.v):
-   every schedule terminates, none deadlocks, every final state holds each frame exactly once, in
-   order, and the digest input in order.  The general statement for all W, all block counts and
-   all schedules is Proofs/ParP.v (see DESIGN.md for its status).  The tie to par.rs is trace
+   Proved here:
+     - GENERAL (Proofs/ParP.v): for every number of workers W >= 1, every number of blocks, every
+       fault plan (a failing read at any index, any set of blocks with out-of-range samples) and
+       EVERY schedule, a run from the initial state that reaches the final state delivers exactly
+       the single-threaded outcome: all frames 0..n-1 (the sink drains them in frame order), the
+       digest input in block order, or the same error (C05_par_refines_seq).  The proof is an
+       inductive invariant (buffer ownership without duplicates, every numbered frame located in
+       exactly the places it can be, FIFO structure of both queues, stop-token discipline),
+       preserved by each of the 12 kinds of step (C05_invariant_init, C05_invariant_step).
+     - complete exploration of all schedules of named finite instances (Proofs/ParSmall.v): every
+       schedule terminates, none deadlocks (kept as regression guards for the model).
+   The tie to par.rs is trace
    validation: every event log recorded from the implementation under schedule perturbation must be
    a run of the extracted LTS ending in the implementation's outcome (PAR stream). *)
-From FV Require Import Model.Base Model.Par Proofs.ParSmall.
+From FV Require Import Model.Base Model.Par Proofs.ParSmall Proofs.ParP.
 
 Theorem C05_all_schedules_w1_b1 : all_schedules_ok (mkPlan 1 1 None (fun _ => false)) 40 = true.
 Proof. exact par_w1_b1. Qed.
@@ -22,3 +30,18 @@ Print Assumptions C05_all_schedules_w2_b1.
 Theorem C05_all_schedules_w1_b0 : all_schedules_ok (mkPlan 1 0 None (fun _ => false)) 40 = true.
 Proof. exact par_w1_b0. Qed.
 Print Assumptions C05_all_schedules_w1_b0.
+
+(* ---- the general theorem ---- *)
+Theorem C05_par_refines_seq : forall (p : plan) (ls : list label) (s : pstate),
+  1 <= p_workers p -> run p (init p) ls = Some s -> final s = true -> result_of s = seq_result p.
+Proof. exact par_refines_seq. Qed.
+Print Assumptions C05_par_refines_seq.
+
+Theorem C05_invariant_init : forall p : plan, Inv p (init p).
+Proof. exact inv_init. Qed.
+Print Assumptions C05_invariant_init.
+
+Theorem C05_invariant_step : forall (p : plan) (s : pstate) (l : label) (s' : pstate),
+  Inv p s -> step p s l = Some s' -> Inv p s'.
+Proof. exact inv_step. Qed.
+Print Assumptions C05_invariant_step.
